@@ -18,7 +18,7 @@ _U = {}
 def work(name):
     u = _U[name]
     try:
-        core.reset_fresh(); eng, ax = u.build(); obs = eng.run(); ax = list(ax) + core.TIME_AXIOMS
+        core.reset_fresh(); eng, ax = u.build(); obs = u.select(eng.run()); ax = list(ax) + core.TIME_AXIOMS
     except Exception as e:
         return name, None, repr(e)[:200]
     per = {}; memo = {}
